@@ -30,7 +30,7 @@ var vC05ParseFloatTable = map[string]float64{
 	"1e3":                 1000,
 }
 
-var vC05ParseFloatErr = map[string]bool{"x": true, "1x": true, "+": true, "-": true, "0x": true, "1 1": true, "+-1": true}
+var vC05ParseFloatErr = map[string]bool{"x": true, "1 1": true, "+-1": true, "0o17": true, "0b11": true, "0b+1": true}
 
 func vC05StubParseFloat(s string, bitSize int) (float64, error) {
 	n := len(s)
